@@ -1,6 +1,7 @@
 import JominiModel.Driver.Util
 import JominiModel.Model.TextTape
 import JominiModel.Spec.TextDocFull
+import JominiModel.Model.Dom
 /-
 Ops of C01 (text tape), the text half of C06 (`wftext`) and the text-tape part of C19 (`tcut`).
 Formats mirror harness/src/show.rs (`text_tape`, `text_tape_offsets`) and harness/src/props/c01.rs.
@@ -229,6 +230,28 @@ def specFull (doc gt h : String) : Option String := do
     | _ => false
   pure s!"ok {showTape (some bytes.length) want} bom:0 render:{if rendered == bytes then 1 else 0} model:{if modelOk then 1 else 0}"
 
+/-- the token translation `toDomTape` of Proofs/TextTapeDomWf.lean (positions dropped), repeated here
+so that the driver does not import proof files: `wftext` also runs the grammar walk `Dom.wfTape`
+(root body and every Object body `key [op] value`, headers followed by a container; true on every
+accepted tape by `C06_text_object_grammar` / `C17_parsed_tape_wf`) -/
+def domOp : Op → Dom.Op
+  | .lt => .lt | .le => .le | .gt => .gt | .ge => .ge
+  | .ne => .ne | .exact => .exact | .eq => .eq | .exists_ => .exists_
+
+def domTok : Tok → Dom.TTok
+  | .array e m => .array e m
+  | .object e m => .object e m
+  | .mixedContainer => .mixedContainer
+  | .unquoted s => .unquoted s.bytes
+  | .quoted s => .quoted s.bytes
+  | .parameter s => .parameter s.bytes
+  | .undefParameter s => .undefinedParameter s.bytes
+  | .operator o => .operator (domOp o)
+  | .endTok i => .end_ i
+  | .header s => .header s.bytes
+
+def domTape (T : List Tok) : Dom.Tape := (T.map domTok).toArray
+
 def handle : Handler
   | ["spec_full", doc, gt, h] => specFull doc gt h
   | ["ttape", h] => (parseHex h).map fun d => tapeLine d false
@@ -253,7 +276,7 @@ def handle : Handler
   | ["quotefb", h] => (parseHex h).map fun d => quoteStr (parseQuoteScalarFallback d)
   | ["wftext", h] => (parseHex h).map fun d =>
       match parse d with
-      | .ok t _ => if wfTextTape d t then "wf:1" else "wf:0"
+      | .ok t _ => if wfTextTape d t && Dom.wfTape (domTape t) then "wf:1" else "wf:0"
       | .err _ => "err"
       | .panic => "panic"
       | .outOfFuel => "out-of-fuel"
